@@ -80,7 +80,7 @@ def bits_of(x, n):
 
 
 # ------------------------------------------------------------------ the prover (a coroutine)
-def prover(inst, rng, a_l, surplus=False):
+def prover(inst, rng, a_l, surplus=False, argued=None, late=None):
     """yields partial proofs, is sent the challenges drawn after them: (y, z), then one e per (L, R) pair, then the last e.
     `a_l`: the prover's digit vector (bits of value - promise when honest).  `surplus`: spend one extra (L, R) pair as a free
     cross-term (only a verifier that tolerates surplus pairs can be fooled by it)."""
@@ -118,7 +118,7 @@ def prover(inst, rng, a_l, surplus=False):
     zj = 1
     for j in range(m):
         zj = zj * z2 % L
-        t_h = (t_h + ypow[nm + 1] * zj % L * (inst.values[j] - (inst.promises[j] or 0))) % L
+        t_h = (t_h + ypow[nm + 1] * zj % L * ((argued or inst.values)[j] - (inst.promises[j] or 0))) % L
         alpha = [(al + ypow[nm + 1] * zj % L * r) % L for al, r in zip(alpha, inst.masks[j])]
     wip = lambda u, w: sum(u[i] * ypow[i + 1] % L * w[i] for i in range(len(u))) % L
 
@@ -165,6 +165,15 @@ def prover(inst, rng, a_l, surplus=False):
     proof["a1"] = vadd(vadd(vadd(vscale(r, gi[0]), vscale(s, hi[0])), vscale((r * y % L * b[0] + s * y % L * a[0]) % L, H)), vmsm(delta, Gb))
     proof["b"] = vadd(vscale(r * y % L * s % L, H), vmsm(eta, Gb))
     (e,) = yield proof
+    if late == "B" and argued is not None:
+        # the argument was made for other values than the commitments hold; the verification equation is linear in B: move the whole
+        # difference e^2 * sum_j z^(2(j+1)) y^(nm+1) (v_j - v'_j) H into B AFTER the last challenge is known.  A verifier whose last
+        # challenge depends on B draws another e for the repaired proof and refuses it.
+        zj, shift = 1, 0
+        for j in range(m):
+            zj = zj * z2 % L
+            shift = (shift + zj * ypow[nm + 1] % L * (inst.values[j] - argued[j])) % L
+        proof["b"] = vadd(proof["b"], vscale((-(e * e % L) * shift) % L, H))
     proof["r1"] = (r + a[0] * e) % L
     proof["s1"] = (s + b[0] * e) % L
     proof["d1"] = [(et + dl * e + al * e % L * e) % L for et, dl, al in zip(eta, delta, alpha)]
@@ -216,7 +225,7 @@ def forge_all(rng, jobs, prefix="forge"):
         job["salt"] = i + 1
         # a template the library itself proves: only its wire layout is used (every field is overwritten)
         job["template"] = gen.mk_member(rng, inst.bits, inst.m, cap=inst.cap, T=inst.T, ctx=inst.ctx)
-        job["co"] = prover(inst, rng, job["a_l"], job.get("surplus", False))
+        job["co"] = prover(inst, rng, job["a_l"], job.get("surplus", False), job.get("argued"), job.get("late"))
         job["proof"] = next(job["co"])
         job["step"] = 0
     live = list(jobs)
@@ -257,7 +266,7 @@ def forge_all(rng, jobs, prefix="forge"):
 
 
 # ------------------------------------------------------------------ families of jobs
-def standard_jobs(rng, quick, which=("honest", "digit", "promise", "surplus")):
+def standard_jobs(rng, quick, which=("honest", "digit", "promise", "surplus", "late")):
     """(job list) every job carries `kind` and `expect` ('ok' | 'err') and a description `why`"""
     jobs = []
 
@@ -314,6 +323,18 @@ def standard_jobs(rng, quick, which=("honest", "digit", "promise", "surplus")):
             a_l = honest_digits(b, vals, proms)
             jobs.append({"inst": inst_of(b, m, T, vals, proms), "a_l": a_l, "kind": "promise", "expect": "err",
                          "why": f"promise {proms[j]} beyond {b} bits at position {j}, value = promise + {off}"})
+    if "late" in which:
+        # the argument is made for in-range values, the commitments hold others; the difference is moved into the LAST message after the last
+        # challenge has been read (only a verifier whose last challenge does not depend on that message accepts)
+        for (b, m, T) in confs[: (5 if quick else 30)]:
+            top = (1 << b) - 1
+            proms = [rng.choice([None, 0, rng.randrange(top + 1)]) for _ in range(m)]
+            argued = [rng.randrange(p or 0, top + 1) for p in proms]
+            j = rng.randrange(m)
+            vals = list(argued)
+            vals[j] = rng.choice([argued[j] + (1 << b), (1 << 64) + 5, (argued[j] - (1 << b)) % L, L - 1])
+            jobs.append({"inst": inst_of(b, m, T, vals, proms), "a_l": honest_digits(b, argued, proms), "argued": argued, "late": "B", "kind": "late", "expect": "err",
+                         "why": f"argument for in-range values, commitment {j} holds another value; the difference repaired in B after the last challenge"})
     if "surplus" in which:
         # one surplus (L, R) pair used as a free cross-term: commitments to values far outside the range
         for (b, m, T) in confs[: (4 if quick else 30)]:
